@@ -884,7 +884,7 @@ def run(ctx):
     shutil.rmtree(T.wd, ignore_errors=True)
 
 
-FN_NAMES = ["A", "B", "g/C", "*", "AB", "A"]
+FN_NAMES = ["A", "B", "g/C", "AB", "A", "D", "B", "*"]
 FN_COMP = ["RLE", "NONE", "HUFF 1", "HUFF 4", "GZIP 6", "GZIP 0", "GZIP 9", "GZIP 10", "HUFF 0", "HUFF", "GZIP", "RLE 1",
            "NONE 3", "FOO", "JPEG 50", "JPEG 101", "SZIP 8,NN", "GZIP x", "GZIP 1 2", " 5", "", "GZIP 0012", "GZIP ", "rle"]
 FN_CHUNK = ["2", "2x3", "10x10x10", "NONE", "0", "2x0", "3x", "x3", "12N", "NONEx2", "2xNONE", "NxO", "", "1x2x3x4", "7x7",
@@ -902,7 +902,11 @@ def gen_fn_line(r):
         names = ",".join(r.choice(FN_NAMES) for _ in range(r.choice([1, 1, 1, 2, 3])))
         if r.random() < 0.05:
             names = r.choice(["", "A,", ",A", "A:B"])
-        tail = r.choice(FN_COMP if kind == "t" else FN_CHUNK)
+        if r.random() < 0.75:   # mostly valid: the table and options_get_info are reached
+            tail = r.choice(["RLE", "NONE", "HUFF 1", "HUFF 4", "GZIP 6", "GZIP 0", "GZIP 9", "NONE 3", "JPEG 50"]
+                            if kind == "t" else ["2", "2x3", "10x10x10", "NONE", "7x7", "5", "4x5", "1x2x3", "9"])
+        else:
+            tail = r.choice(FN_COMP if kind == "t" else FN_CHUNK)
         sep = ":" if r.random() < 0.97 else ""
         opts.append((kind, names + sep + tail))
     qs = []
